@@ -9,7 +9,7 @@ use packing::{LJShape2, LineShape, MolecularShape2, PackedState, PotentialState}
 use rand::prelude::*;
 use rand_pcg::Pcg64Mcg;
 
-use crate::optrace::{run_real, run_scripted, Req, Run};
+use crate::optrace::{run_real, run_real_fresh, run_scripted, Req, Run};
 use crate::states::{family_of, Brain, Script, Scripted};
 
 pub const GROUPS: [&str; 7] = ["p1", "p2", "p1m1", "p1g1", "p2mm", "p2mg", "p2gg"];
@@ -20,6 +20,25 @@ pub fn group(name: &str) -> packing::WallpaperGroup<'static> {
     match name {
         "hex1" => packing::WallpaperGroup { name: "hex1", family: packing::CrystalFamily::Hexagonal, wyckoff_str: vec!["x,y"] },
         "tet1" => packing::WallpaperGroup { name: "tet1", family: packing::CrystalFamily::Tetragonal, wyckoff_str: vec!["x,y", "-x,-y"] },
+        // user-built groups of spec/Wallpaper.tla (UserOps): operations in another order, centred
+        // cells, a four-fold axis
+        "p2r" => packing::WallpaperGroup { name: "p2r", family: packing::CrystalFamily::Monoclinic, wyckoff_str: vec!["-x,-y", "x,y"] },
+        "p2mgr" => packing::WallpaperGroup {
+            name: "p2mgr",
+            family: packing::CrystalFamily::Orthorhombic,
+            wyckoff_str: vec!["-x+1/2,y", "x+1/2,-y", "-x,-y", "x,y"],
+        },
+        "c1m1" => packing::WallpaperGroup {
+            name: "c1m1",
+            family: packing::CrystalFamily::Orthorhombic,
+            wyckoff_str: vec!["x,y", "-x,y", "x+1/2,y+1/2", "-x+1/2,y+1/2"],
+        },
+        "c2mm" => packing::WallpaperGroup {
+            name: "c2mm",
+            family: packing::CrystalFamily::Orthorhombic,
+            wyckoff_str: vec!["x,y", "-x,-y", "-x,y", "x,-y", "x+1/2,y+1/2", "-x+1/2,-y+1/2", "-x+1/2,y+1/2", "x+1/2,-y+1/2"],
+        },
+        "p4" => packing::WallpaperGroup { name: "p4", family: packing::CrystalFamily::Tetragonal, wyckoff_str: vec!["x,y", "-x,-y", "-y,x", "y,-x"] },
         _ => {
             let g: WallpaperGroups = name.parse().expect("group name");
             get_wallpaper_group(g).expect("group")
@@ -527,6 +546,11 @@ pub fn edited_suite(rng: &mut Pcg64Mcg, count: usize, max_steps: u64, oor: bool)
             }
             _ => site["angle"] = serde_json::json!(2. * PI),
         }
+        // a Wyckoff site that declares rotations of its own (plain data a user may set; the
+        // orientation keeps its range and its maximum move)
+        if !oor && k % 3 == 0 {
+            site["wyckoff"]["num_rotations"] = serde_json::json!(2 + (k % 2) as u64 * 2);
+        }
         let st2: PackedState<LineShape> = match serde_json::from_value(j) {
             Ok(s) => s,
             Err(_) => continue,
@@ -632,6 +656,44 @@ pub fn special_suite(rng: &mut Pcg64Mcg, count: usize) -> Vec<Run> {
     runs
 }
 
+/// Shapes so small that the initial cell is shorter than the lower limit of the cell length
+/// (0.01): valid states whose length handle has its limits the wrong way round.  Used for the
+/// termination clauses only (the state starts outside that handle's range, like the `oor` runs).
+pub fn tiny_suite(rng: &mut Pcg64Mcg, count: usize) -> Vec<Run> {
+    let mut runs = vec![];
+    for k in 0..count {
+        let gname = ["p1", "p2", "p2mm", "p4", "p2gg"][k % 5];
+        let g = group(gname);
+        let shape = match k % 3 {
+            0 => LineShape::from_radial("small", vec![0.001; 4]),
+            1 => LineShape::from_radial("small", vec![0.002, 0.001, 0.002, 0.001]),
+            _ => LineShape::from_radial("small", vec![0.0005; 3]),
+        };
+        let st = match shape.ok().and_then(|sh| PackedState::from_group(sh, &g).ok()) {
+            Some(s) => s,
+            None => continue,
+        };
+        if st.score().is_none() {
+            continue;
+        }
+        let stages = 1 + k % 2;
+        let reqs: Vec<Req> = (0..stages)
+            .map(|_| {
+                let mut r = random_req(rng, 100);
+                if r.max_step < 0.001 {
+                    r.max_step = 0.05;
+                }
+                if r.kt_start > 1. {
+                    r.kt_start = 0.5;
+                }
+                r
+            })
+            .collect();
+        chain(&format!("#{} tiny shape {}", k, gname), gname, st, &reqs, &mut runs);
+    }
+    runs
+}
+
 pub fn seeded(seed: u64, stream: u64) -> Pcg64Mcg {
     Pcg64Mcg::seed_from_u64(seed.wrapping_mul(0x9E37_79B9_7F4A_7C15).wrapping_add(stream))
 }
@@ -660,7 +722,9 @@ where
         Ok(s) => s,
         Err(_) => return,
     };
-    let (mut a, _) = run_real(&format!("{} stage=2 reference | {}", desc, r2.describe()), r2, s1, fam, true);
+    // the reference continues with the state object that has the history of stage 1 behind it;
+    // each of its scores is also compared with the score of a fresh copy of the state
+    let (mut a, _) = run_real_fresh(&format!("{} stage=2 reference | {}", desc, r2.describe()), r2, s1, fam, true);
     a.keep_hist = true;
     out.push(a);
     let (mut b, _) = run_real(
